@@ -77,6 +77,11 @@ Definition all_codes (keys : list key) : option (list Z) := sequence (flat_map e
 
 Definition zmem (z : Z) (l : list Z) : bool := existsb (Z.eqb z) l.
 Definition is_default_key (k : key) : bool := match k with KStr s => str_eqb s s_default | KInt _ => false end.
+(* checks.py:79 (since e29caab0): isinstance(code, str) and code.lower().startswith(x-) - a specification extension *)
+Definition is_extension_key (k : key) : bool :=
+  match k with KStr s => starts_with [120;45] (lower_ascii s) | KInt _ => false end.
+(* the keys _expand_responses hands to expand_status_code *)
+Definition status_keys (keys : list key) : list key := filter (fun k => negb (is_extension_key k)) keys.
 
 (* ---------- documentation ---------- *)
 Record sch := { s_id : N; s_truthy : bool }.
@@ -196,7 +201,7 @@ Definition lookup_spec (d : doc) (code : N) : option rdef :=
   match lookup_by (str_is (dec code)) (d_responses d) with
   | Some x => Some x
   | None =>
-      match find (fun kv => has_x (fst kv) && negb (is_default_key (fst kv)) && key_matches (fst kv) code) (d_responses d) with
+      match find (fun kv => has_x (fst kv) && negb (is_default_key (fst kv)) && negb (is_extension_key (fst kv)) && key_matches (fst kv) code) (d_responses d) with
       | Some kv => Some (snd kv)
       | None => lookup_by (str_is s_default) (d_responses d)
       end
@@ -273,8 +278,18 @@ Definition schema_check_on (strict : bool) (valid : N -> N -> bool) (os : option
   end.
 
 (* ---------- the checks as coded ---------- *)
-(* status_code_conformance (checks.py:54) *)
+(* status_code_conformance (checks.py:54) with _expand_responses (checks.py:77) as of e29caab0 *)
 Definition status_check (d : doc) (r : response) : outcome :=
+  let keys := map fst (d_responses d) in
+  if existsb is_default_key keys then Ok []
+  else match all_codes (status_keys keys) with
+       | None => Crash EValueError
+       | Some codes => if zmem (Z.of_N (status r)) codes then Ok [] else Ok [FUndefinedStatus]
+       end.
+
+(* SENTINEL, not the code any more: status_code_conformance before e29caab0 expanded every key,
+   specification extensions included (finding C04-F4, fixed) *)
+Definition status_check_before_e29caab0 (d : doc) (r : response) : outcome :=
   let keys := map fst (d_responses d) in
   if existsb is_default_key keys then Ok []
   else match all_codes keys with
@@ -326,11 +341,11 @@ Definition verdict (valid : N -> N -> bool) (hvalid : N -> str -> bool) (d : doc
          ++ kinds (headers_check hvalid d r) ++ kinds (schema_check valid d r)).
 
 (* ---------- the checks as documented ---------- *)
-(* keys that are not status codes (vendor extensions) are not status codes *)
+(* specification extensions and keys that do not read as integers are not status codes *)
 Definition spec_status_check (d : doc) (r : response) : outcome :=
   let keys := map fst (d_responses d) in
   if existsb is_default_key keys then Ok []
-  else if existsb (fun k => key_matches k (status r)) keys then Ok [] else Ok [FUndefinedStatus].
+  else if existsb (fun k => key_matches k (status r)) (status_keys keys) then Ok [] else Ok [FUndefinedStatus].
 
 Definition spec_def (d : doc) (r : response) : option rbody :=
   match lookup_spec d (status r) with
@@ -377,19 +392,19 @@ Definition spec_verdict (valid : N -> N -> bool) (hvalid : N -> str -> bool) (d 
 Definition all_defs (d : doc) : list rdef := map snd (d_responses d) ++ map snd (d_components d).
 Definition def_ok (p : rbody -> bool) (x : rdef) : bool := match x with RInline b => p b | RRef _ => true end.
 
-(* F1: no key other than default is a wildcard *)
+(* F1: no key other than default and specification extensions is a wildcard *)
 Definition no_wildcard_keys (d : doc) : bool :=
-  forallb (fun k => is_default_key k || negb (has_x k)) (map fst (d_responses d)).
+  forallb (fun k => is_default_key k || is_extension_key k || negb (has_x k)) (map fst (d_responses d)).
 (* F2: at most one media type per response *)
 Definition single_media_type (d : doc) : bool :=
   forallb (def_ok (fun b => (length (r_content b) <=? 1)%nat)) (all_defs d).
 (* F3: keys are strings *)
 Definition no_int_keys (d : doc) : bool :=
   forallb (fun k => match k with KStr _ => true | KInt _ => false end) (map fst (d_responses d)).
-(* F4: every key is default or expands to integers *)
+(* F4b: every key is default, a specification extension, or expands to integers *)
 Definition keys_parse (d : doc) : bool :=
   forallb (fun k => is_default_key k || forallb (fun o => match o with Some _ => true | None => false end) (expand_key k))
-          (map fst (d_responses d)).
+          (status_keys (map fst (d_responses d))).
 (* F5: referenced responses are inline and exist *)
 Definition flat_refs (d : doc) : bool :=
   forallb (fun kv => match snd kv with RInline _ => true | RRef _ => false end) (d_components d)
